@@ -2,6 +2,7 @@ package lua
 
 import (
 	"sort"
+	"strings"
 )
 
 func OpenTable(L *LState) int {
@@ -70,24 +71,21 @@ func tableConcat(L *LState) int {
 		L.Push(emptyLString)
 		return 1
 	}
-	//TODO should flushing?
-	retbottom := L.GetTop()
+	// built directly: pushing the 2n-1 pieces onto the value stack limited the
+	// list to about half the registry size ("registry overflow" beyond ~2500
+	// elements with the default options)
+	var sb strings.Builder
 	for ; i <= j; i++ {
 		v := tbl.RawGetInt(i)
 		if !LVCanConvToString(v) {
 			L.RaiseError("invalid value (%s) at index %d in table for concat", v.Type().String(), i)
 		}
-		L.Push(v)
+		sb.WriteString(LVAsString(v))
 		if i != j {
-			L.Push(sep)
+			sb.WriteString(string(sep))
 		}
 	}
-	ret := stringConcat(L, L.GetTop()-retbottom, L.reg.Top()-1)
-	if _, ok := ret.(LString); !ok {
-		// a single number element still concatenates to a string
-		ret = LString(LVAsString(ret))
-	}
-	L.Push(ret)
+	L.Push(LString(sb.String()))
 	return 1
 }
 
